@@ -350,7 +350,7 @@ func (e *Env) index(x, i SVal) SVal {
 	switch u := x.Typ.Underlying().(type) {
 	case *types.Slice:
 		h := e.p.elemHeap(u.Elem())
-		return SVal{T: Select(Select(e.cur.H(e.p, h), SBase(x.T)), Add(SOff(x.T), i.T)), Typ: u.Elem()}
+		return SVal{T: At(Select(e.cur.H(e.p, h), SBase(x.T)), SOff(x.T), i.T), Typ: u.Elem()}
 	case *types.Basic:
 		if u.Info()&types.IsString != 0 {
 			return SVal{T: App("str_at", SInt, x.T, i.T), Typ: tUint8}
@@ -370,7 +370,7 @@ func (e *Env) index(x, i SVal) SVal {
 	case *types.Pointer:
 		if at, ok := u.Elem().Underlying().(*types.Array); ok {
 			h := e.p.elemHeap(at.Elem())
-			return SVal{T: Select(Select(e.cur.H(e.p, h), x.T), i.T), Typ: at.Elem()}
+			return SVal{T: At(Select(e.cur.H(e.p, h), x.T), IntLit(0), i.T), Typ: at.Elem()}
 		}
 	}
 	efail("cannot index type %s", x.Typ)
